@@ -323,7 +323,10 @@ CHECKS["C13"] = NS(
         "ValueError, KeyboardInterrupt, GeneratorExit, SystemExit, a custom BaseException) x fault position (inside the forward at every "
         "module position of chains of 1..3 quantized layers, or in the with body) x nesting depth 1-2 x streamlining x bystander model is "
         "run and followed by an unrelated forward and a freshly built module. machine: a Hypothesis RuleBasedStateMachine (rules enter / "
-        "exit / exit-by-exception / forward / library call / new module, invariants after every step) explores interleavings. The oracle is "
+        "exit / exit-by-exception / forward / library call / new module, invariants after every step) explores interleavings. purity: every "
+        "public quantization entry point (quantize_weight, quantize_activation, the two quantizers, absmax_scale, the optimizers, dequantize, "
+        "re-quantization) over qtype x axis x group size (incl. one group per index) x unit dims x memory layouts must leave the tensor it "
+        "reads bitwise unchanged (values, version counter, the storage it is a view of) and return the same result twice. The oracle is "
         "a snapshot of torch's global module-hook tables, the torch-function mode stack and quanto's extension flag, plus bitwise "
         "state_dict / flag snapshots around forwards and version counters of tensors handed to library calls."
     ),
@@ -332,7 +335,8 @@ CHECKS["C13"] = NS(
     RULE=(
         "faults: explicit histories [enter x depth, exit through an injected exception at an enumerated point, remaining exits, forward of a "
         "bystander, new module]. machine: up to 12 rule applications per example. Non-trivial: a history with an exceptional exit followed by "
-        "a forward of another model or a new module. Distinct by the sequence of (op, exception kind, position, model, function)."
+        "a forward of another model or a new module; purity: a grouped, last-axis or non-contiguous configuration. Distinct by the sequence "
+        "of (op, exception kind, position, chain length, streamline, model, function) / (function, qtype, dtype, shape, axis, group, layout)."
     ),
     ASSUMPTIONS=["an exception is caught right outside the innermost with block (the other contexts of a nest are then left normally)", "single-threaded: no schedule dimension"],
     PLAN={"quick": [("faults", 6, {"maxn": 3}), ("machine", 6, {"n": 200, "steps": 12}), ("purity", 4, {"n": 600})],
@@ -346,7 +350,8 @@ CHECKS["C09"] = NS(
         "Model-based testing of lifecycle histories: Hypothesis draws a runnable model (MLPs with/without LayerNorm, conv nets over the "
         "Conv2d hyper-parameter space, single Linear with in_features chosen so that every automatic group size occurs), a configuration "
         "(6 weight qtypes x 4 activation settings x 3 dtypes) and 2-7 steps from {forward, calibrate (with and without no_grad, "
-        "streamlining on/off), freeze, freeze again, deepcopy, to(cpu) copy, state_dict reload, channels_last, continue on the copy}. "
+        "streamlining on/off), freeze, freeze again, module-level freeze of one quantized module (partially frozen models), deepcopy, "
+        "to(cpu) copy, state_dict reload, channels_last, continue on the copy}. "
         "Oracles: outputs on a stored probe batch are bit-identical across freeze and across every copy, a second freeze changes no "
         "tensor and no attribute, freeze touches nothing but the quantized weights, frozen weights satisfy the structural invariant with "
         "the packed payload size and scale / zero-point counts computed from shapes. Exploration."
@@ -354,7 +359,8 @@ CHECKS["C09"] = NS(
     LEVEL_NOTE="bitwise comparison of outputs (same kernels on the same data before and after); CPU only, device moves are cpu->cpu copies",
     TECHNIQUE=PBT + "stateful generation of lifecycle histories; bitwise before/after oracle, idempotence, storage-size formula",
     RULE=(
-        "Hypothesis histories as above. Non-trivial: a freeze that is followed by at least one of {freeze again, deepcopy, reload, to copy}. "
+        "Hypothesis histories as above. Non-trivial: a freeze that is followed by at least one of {freeze again, deepcopy, reload, to copy} or "
+        "preceded by a module-level freeze. "
         "Distinct by (model recipe, configuration, step sequence)."
     ),
     ASSUMPTIONS=["real device moves are impossible (CPU only)", "histories whose float model is not finite on the probe batch are discarded"],
